@@ -429,6 +429,8 @@ pub fn snapshot_race(v: &Verdicts, rounds: usize) -> (u64, u64) {
         let stop = AtomicBool::new(false);
         let snaps = std::sync::atomic::AtomicU64::new(0);
         let mut last: Vec<BTreeMap<String, Option<String>>> = vec![];
+        // every other round the writers end with a snapshot request of their own and nobody asks again afterwards
+        let client_requests = r % 2 == 1;
         std::thread::scope(|sc| {
             let hs: Vec<_> = (0..WRITERS)
                 .map(|w| {
@@ -466,6 +468,22 @@ pub fn snapshot_race(v: &Verdicts, rounds: usize) -> (u64, u64) {
                             while snaps.load(Ordering::Acquire) == seen && std::time::Instant::now() < deadline {
                                 std::thread::yield_now();
                             }
+                        }
+                        if client_requests {
+                            // the writer's last word: a snapshot request of its own, issued while the snapshot thread is
+                            // (almost certainly) in the middle of writing this very database; it is acknowledged, so it
+                            // has to be carried out - by this run of the snapshot thread or by a later one
+                            // (a few last writes first, made while a run of the snapshot thread is under way: only a
+                            // snapshot that starts after them can put them on disk)
+                            for i in 0..5 {
+                                let k = format!("w{}tail{}", w, i);
+                                let val = format!("r{}tail", r);
+                                if !s.call(&dbs, &format!("set {} {}", k, val)).is_error() {
+                                    mine.insert(k, Some(val));
+                                }
+                            }
+                            s.call(&dbs, "auth admin pwd");
+                            s.call(&dbs, "snapshot false one");
                         }
                         s.disconnect(&dbs);
                         mine
@@ -509,8 +527,12 @@ pub fn snapshot_race(v: &Verdicts, rounds: usize) -> (u64, u64) {
             v.report(json!({"check": "snapshot-race", "problem": if lost.iter().any(|l| l[1].is_null()) { "acknowledged-remove-undone-in-memory-by-a-concurrent-snapshot" } else { "acknowledged-write-rolled-back-in-memory-by-a-concurrent-snapshot" }}), json!({"round": r, "keys_affected": lost.len(), "first_key_last_acknowledged_value_memory": lost.iter().take(5).collect::<Vec<_>>()}));
             continue;
         }
-        // (2) one more snapshot with nobody writing, then the restart
-        adm.call(&dbs, "snapshot false one");
+        // (2) one more snapshot with nobody writing, then the restart; in the rounds in which the writers asked for a
+        // snapshot after their last write, nobody asks again: the timer action runs until nothing is queued
+        if !client_requests {
+            adm.call(&dbs, "snapshot false one");
+        }
+        nundb::disk_ops::verif_declutter(&dbs);
         nundb::disk_ops::verif_declutter(&dbs);
         let want = image_of(&node, "one");
         drop(node);
@@ -524,7 +546,7 @@ pub fn snapshot_race(v: &Verdicts, rounds: usize) -> (u64, u64) {
             let (w, g) = (want.map(|i| i.keys).unwrap_or_default(), got.map(|i| i.keys).unwrap_or_default());
             let differing: Vec<serde_json::Value> = w.iter().filter(|(k, val)| g.get(*k) != Some(*val)).take(5).map(|(k, val)| json!([k, val, g.get(k)])).collect();
             let n_diff = w.iter().filter(|(k, val)| g.get(*k) != Some(*val)).count() + g.keys().filter(|k| !w.contains_key(*k)).count();
-            v.report(json!({"check": "restore", "kind": "dataset-differs", "detail": "after-snapshots-racing-writers"}), json!({"round": r, "keys_differing": n_diff, "key_snapshotted_restored": differing}));
+            v.report(json!({"check": "restore", "kind": "dataset-differs", "detail": if client_requests { "after-snapshot-requests-of-clients-racing-the-snapshot-thread" } else { "after-snapshots-racing-writers" }}), json!({"round": r, "keys_differing": n_diff, "key_snapshotted_restored": differing}));
         }
         drop(node2);
         let _ = std::fs::remove_dir_all(&dir);
